@@ -990,8 +990,10 @@ def split_jobs(tier):
         for i in range(0, len(cfgs), 7 if thorough else 14):
             jobs.append(('split', cfgs[i:i + (7 if thorough else 14)],
                          b1, ms))
-        al = ALPHA if thorough else (
-            ALPHA3 if kind == 'pipe' else [0, 5, 16385, 65537])
+        if kind == 'pipe':
+            al = ALPHA if thorough else ALPHA3
+        else:
+            al = ALPHA3 if thorough else [0, 5, 16385, 65537]
         cfgs = [dict(kind=kind, lens=[a, b, c]) for a in al for b in al
                 for c in al]
         step = 4 if thorough else 7
@@ -1245,9 +1247,10 @@ BOUNDS = {
              'conc: preemptions+deviations<=2 (<=3 for 1-2 messages over '
              'capacities 1..8, <=1 with environment choices on large '
              'capacities and for 2 MiB+1)',
-    'thorough': 'split: deviations<=4 for 1-2 messages, <=3 for triples over '
-                'the full alphabet; peerclose: <=3; conc: <=3 (<=4 for 1-2 '
-                'messages over capacities 1..8)',
+    'thorough': 'split: deviations<=4 for 1-2 messages, <=3 for triples '
+                '(full alphabet on the pipe, reduced on the socketpair); '
+                'peerclose: <=3; conc: <=3 (<=4 for 1-2 messages over '
+                'capacities 1..8)',
 }
 
 
